@@ -12,13 +12,16 @@ from props.c17_craft import *
 
 MODULES = ["JxlModel.Props.C17"]
 NOT_E2E = ("end-to-end JPEG byte-exactness (reconstructed file == original JPEG) is exercised on synthetic "
-           "transcodes only: harness/src/synth.rs writes 4:4:4 three-component JPEGs with an independent encoder "
+           "transcodes only: harness/src/synth.rs writes three-component JPEGs (sampling factors 1 or 2 per component "
+           "and direction: 4:4:4, 4:2:0, 4:2:2, 4:4:0 and unusual mixes) and grey JPEGs, of sizes that are and are not "
+           "multiples of the MCU (padding blocks included), interleaved and not, with an independent encoder "
            "that follows the IJG library's entropy coder -- baseline (four scan layouts, extra zero runs) and "
            "progressive (spectral selection, successive approximation, seeded scan scripts, end-of-band runs "
            "incl. runs over 32767 blocks and runs ended early by the correction-bit buffer or by choice), restart "
            "intervals, Annex K or seeded Huffman tables in one or several DHT segments, recorded padding bits, "
            "JFIF / Exif / comment segments -- and carries the same coefficients in a VarDCT frame of DCT8 blocks "
-           "with a jbrd box; chroma subsampling, grey JPEGs, 16-bit quantisation tables, extra zero runs in "
+           "(jpeg_upsampling set from the factors, whole MCUs coded) with a jbrd box; sampling factors 3 and 4, "
+           "grey JPEGs with factors other than 1x1, 16-bit quantisation tables, extra zero runs in "
            "refinement scans, ICC APP2 segments, larger varblocks and integer chroma-from-luma with non-trivial "
            "factors are NOT covered")
 M64 = (1 << 64) - 1
@@ -687,6 +690,30 @@ def lens_campaign(ctx, ok, n):
                 ctx.failed_obligations.append(f"correspondence expected_*_len vs model differs on {h['app']}: model {model[k]!r} expected {mw!r}")
 
 
+def sjpeg_line(rng, big=False):
+    """`sjpeg <seed> <width> <height> <sampling> <script> <ri> <tables> <style> <resets> <ezr> <pad> <feed>`
+    (harness/src/bin/c17e.rs). About two thirds of the subsampled cases use one interleaved scan of all
+    components (the layout the known MCU-geometry defect of the decoder does not reach)."""
+    if big:
+        w, h = rng.choice([(264, 24), (520, 33), (300, 270), (257, 257), (1030, 17), (40, 515)])
+    else:
+        w, h = rng.choice([(8, 8), (16, 16), (1, 1), (17, 9), (9, 17), (15, 33), (24, 40), (33, 31), (48, 16), (100, 75),
+                           (64, 64), (250, 20), (31, 100), (7, 64), (129, 8), (32, 32), (23, 23)])
+    samp = rng.choice(["420"] * 6 + ["422"] * 3 + ["440"] * 3 + ["g"] * 3 +
+                      ["444", "444", "x221211", "x211221", "x111122", "x122111", "x212112", "x112121", "x112222"])
+    if samp in ("g", "444") or rng.random() < 0.35:
+        script = rng.choice(["b", "bs", "bm", "bc", "br", "A", "B", "R", "R"])
+    else:
+        script = "b"
+    mcus = -(-w // 16)
+    ri = rng.choice([0, 0, 1, 2, 3, 7, mcus, 2 * mcus + 1, 1000])
+    tables = rng.choice(["c", "cs"]) if script in "ABR" else rng.choice(["k", "c", "cs"])
+    ezr = rng.choice([0, 0, 1, 2, 4, 8]) if script[0] == "b" else 0
+    feed = rng.choice(["w", "w", "7", "64", "1000"]) if w * h <= 10000 else rng.choice(["w", "4096"])
+    return (f"sjpeg {rng.randrange(1, 10 ** 6)} {w} {h} {samp} {script} {ri} {tables} {rng.choice('nnqz')} "
+            f"{rng.choice([0, 0, 1, 3, 8])} {ezr} {rng.choice('dznrn')} {feed}")
+
+
 def e2e_campaign(ctx, n):
     """reconstructed file == original JPEG, byte for byte, on synthetic lossless transcodes (see NOT_E2E
     for what they cover): the original is written by an independent baseline encoder, the container by
@@ -719,12 +746,29 @@ def e2e_campaign(ctx, n):
         if feed == "1" and bw * bh > 64:
             feed = "64"
         lines.append(f"pjpeg {rng.randrange(1, 10 ** 6)} {bw} {bh} {script} {ri} {tables} {style} {resets} {pad} {feed}")
+    # chroma subsampling and grey: sampling factors 1 or 2 per component and direction, sizes in pixels that
+    # are / are not multiples of the MCU (padding blocks at the right and bottom edge, several groups),
+    # scans interleaved or not, restart intervals, extra zero runs, padding bits, progressive scripts
+    # witness of the repaired defect (scan MCU geometry taken from the scan's own components): always replayed
+    lines.append("sjpeg 1 16 16 420 bs 0 k n 0 0 d w")
+    for i in range(n):
+        lines.append(sjpeg_line(rng, big=i % 16 == 15))
     outs = run_lines_robust([ctx.harness_bin("c17e")], lines, per_line_timeout=120)
     for l, o in zip(lines, outs):
         w = l.split()
         o = o or "crash"
         ctx.case(("e2e", l), nontrivial=True)
-        if w[0] == "pjpeg":
+        if w[0] == "sjpeg":
+            facts = dict(x.split("=", 1) for x in o.split() if "=" in x)
+            lesser = facts.get("lesser-scans", "?")
+            ctx.count("e2e:sampling-" + w[4]); ctx.count("e2e:sub-script-" + w[5])
+            ctx.count("e2e:sub-restart-" + ("none" if w[6] == "0" else "some"))
+            ctx.count("e2e:sub-mcu-padding-" + ("none" if facts.get("pad", "0") == "0" else "some"))
+            ctx.count("e2e:sub-scans-without-a-largest-factor-component-" + ("none" if lesser == "0" else "some"))
+            ctx.count("e2e:sub-size-" + ("several-groups" if int(w[2]) > 256 or int(w[3]) > 256 else "one-group"))
+            if int(w[10]):
+                ctx.count("e2e:sub-with-extra-zero-runs")
+        elif w[0] == "pjpeg":
             ctx.count("e2e:script-" + w[4]); ctx.count("e2e:restart-" + ("none" if w[5] == "0" else "some"))
             ctx.count("e2e:tables-" + w[6]); ctx.count("e2e:blocks-" + w[7]); ctx.count("e2e:padding-" + w[9])
             ctx.count("e2e:feed-" + ("whole" if w[10] == "w" else "chunked"))
